@@ -198,10 +198,72 @@ func (wt *watcher) observe() {
 	wt.check()
 }
 
+// offChain: a lookup by hash must not report a header that the lookups by
+// height do not have (every header any node ever produced is tried).
+func (wt *watcher) offChain(v *storeView) {
+	if !wt.checkC01 {
+		return
+	}
+	n := 0
+	for hash, b := range wt.w.tree.ByHash {
+		if int(b.Height) < len(v.blks) && v.blks[b.Height] == b {
+			continue
+		}
+		if n++; n > 400 {
+			break
+		}
+		hash := hash
+		if hdr, err := wt.w.cs.GetBlockHeader(&hash); err == nil {
+			wt.fail("lookup-disagree", map[string]string{"by": "hash-off-chain"},
+				"GetBlockHeader(%s) reports a header (%s, model height %d) although the chain reported by height (tip %d) does not contain it",
+				short(hash), short(hdr.BlockHash()), b.Height, v.tip())
+		}
+	}
+}
+
+// validity is the C01 clause "every stored header is valid" on its own (model
+// taint and the independent validator), for instants at which transitions
+// cannot be judged.
+func (wt *watcher) validity(v *storeView) {
+	for h, b := range v.blks {
+		if b == nil {
+			wt.fail("unknown-header-stored", nil, "height %d holds a header (%s) that no node ever produced", h, short(v.hdrs[h].BlockHash()))
+		}
+		if b.Tainted {
+			bad := b
+			for bad.Broken == "" {
+				bad = bad.Parent
+			}
+			wt.fail("invalid-header-stored", map[string]string{"rule": bad.Broken},
+				"stored chain (tip %d) contains the header at height %d (%s) which breaks rule %q", v.tip(), bad.Height, short(bad.Hash), bad.Broken)
+		}
+	}
+	if e := chainmodel.ValidateChain(wt.w.params, v.hdrs, time.Now().Add(70*time.Minute)); e != nil && (e.Rule == "checkpoint" || e.Rule == "future-time") {
+		wt.fail("invalid-header-stored", map[string]string{"rule": e.Rule},
+			"stored chain (tip %d) contains the header at height %d which breaks rule %q", v.tip(), e.Height, e.Rule)
+	}
+}
+
+// instant is run while a block-manager goroutine is parked half-way through a
+// chain change (hook H7): what the client reports at that very instant must
+// be one valid chain on which all lookups agree (C01 says "at every instant").
+// Nothing is remembered: how the chain changed is judged between completed
+// states only.
+func (wt *watcher) instant(site string) {
+	if !wt.w.running {
+		return
+	}
+	v := wt.read()
+	wt.validity(v)
+	wt.offChain(v)
+	wt.w.rc.Probe("instant_observed_" + site)
+}
+
 // check reads the stores and runs the oracles.
 func (wt *watcher) check() {
 	w := wt.w
 	v := wt.read()
+	wt.offChain(v)
 	// --- C01: every stored header is valid ---
 	var badAt *chainmodel.Block // first invalid stored header, if any
 	badRule := ""
